@@ -248,7 +248,7 @@ class Ctx:
     # ---------------------------------------------------------------- TLC
     def tlc(self, stage, module, cfg, files=(), data=None, workers=8, timeout=600,
             simulate=None, depth=None, tags=("REJECT", "BEHAVIOUR", "CASE", "NOTE", "COVER"),
-            heap="4g", extra=(), dfs=False, coverage=False, deadlock=None, xss=None,
+            heap="4g", extra=(), dfs=False, coverage=False, deadlock=None, xss="256m",
             generated=None):
         """Run TLC on spec/<module>.tla with cfg (a path relative to spec/ or literal text).
 
